@@ -533,7 +533,7 @@ func Run(id, repo, verif, tier string, seed int, writeBaseline bool) int {
 		cov[k] = v
 	}
 	assumptions := append([]string{
-		"Go int is a mathematical integer (no overflow obligations)",
+		"signed Go integers are mathematical integers (no overflow obligations); unsigned ones wrap around modulo 2^n",
 		"a string is a finite byte sequence (uninterpreted sort with length and byte-at functions, extensionality)",
 		"slices are values (array, length); append returns a fresh backing array; in-place library effects are propagated to textually identical aliases only",
 		"method receivers are non-nil; typeIs(x, \"*T\") means x holds a non-nil *T",
